@@ -1,7 +1,508 @@
-//! C15 — not implemented yet (see DESIGN.md section 4).
-use kit::Run;
-use serde_json::Value;
+//! C15 — embeddable signing returns bytes of exactly the placeholder size (data-hash placeholder workflow).
+//! S-inp: format with composed-manifest support x number of exclusions 1..12 x offset magnitude class x
+//! length magnitude class x signer reserve {default, +5000} x definition {simple, rich}, all through the
+//! public flow placeholder -> set_data_hash_exclusions -> update_hash_from_stream -> sign_embeddable.
+//!
+//! Two kinds of case:
+//!  * real  (n = 1): the placeholder is really embedded in a kit asset behind a filler that puts it at an offset of
+//!    the wanted magnitude class; the signed bytes are patched in place and the asset must read back Valid.
+//!  * sized (n = 1..12): the exclusion list has the wanted number / magnitudes; the hashed stream is a sparse virtual
+//!    stream long enough for the list (nothing of this size is ever materialised). Only the size contract is judged.
+//!
+//! Mutants caught (tools/mutant_run.sh H <diff> C15 quick):
+//!   /verif/mutants/C15-placeholder-9-dummies.diff
 
-pub fn run(_run: &Run, _replay: Option<&Value>) {
-    kit::ev::machinery("C15: check not implemented");
+use c2pa::{Builder, BuilderIntent, Context, DigitalSourceType, HashRange, Reader, Signer, SigningAlg};
+use kit::{assets, defs::Def, par, sdk, Run};
+use serde_json::{json, Value};
+use std::io::{Cursor, Read, Seek, SeekFrom};
+
+pub struct OwnedReserve {
+    pub inner: Box<dyn Signer + Send + Sync>,
+    pub extra: usize,
+}
+impl Signer for OwnedReserve {
+    fn sign(&self, data: &[u8]) -> c2pa::Result<Vec<u8>> {
+        self.inner.sign(data)
+    }
+    fn alg(&self) -> SigningAlg {
+        self.inner.alg()
+    }
+    fn certs(&self) -> c2pa::Result<Vec<Vec<u8>>> {
+        self.inner.certs()
+    }
+    fn reserve_size(&self) -> usize {
+        self.inner.reserve_size() + self.extra
+    }
+}
+
+pub const FORMATS: [(&str, &str); 6] = [
+    ("jpeg", "image/jpeg"),
+    ("png", "image/png"),
+    ("gif", "image/gif"),
+    ("tiff", "image/tiff"),
+    ("jxl", "image/jxl"),
+    ("c2pa", "application/c2pa"),
+];
+
+pub const CLASS_LO: [u64; 5] = [0, 24, 256, 65_536, 1 << 32];
+#[allow(dead_code)]
+pub const CLASS_NAME: [&str; 5] = ["<24", "<256", "<2^16", "<2^32", ">=2^32"];
+
+pub fn class_of(x: u64) -> usize {
+    (0..5).rev().find(|c| x >= CLASS_LO[*c]).unwrap_or(0)
+}
+
+// ---- embedding a composed placeholder in a kit asset behind a filler -----------------------------------------
+
+fn jpeg_com(n: usize) -> Vec<u8> {
+    // COM segments carrying n data bytes in total
+    let mut v = vec![];
+    let mut left = n;
+    while left > 0 {
+        let k = left.min(60_000);
+        v.extend_from_slice(&[0xFF, 0xFE]);
+        v.extend_from_slice(&((k + 2) as u16).to_be_bytes());
+        v.extend(std::iter::repeat(0x41u8).take(k));
+        left -= k;
+    }
+    v
+}
+
+fn gif_comment(n: usize) -> Vec<u8> {
+    if n == 0 {
+        return vec![];
+    }
+    let mut v = vec![0x21, 0xFE];
+    let mut left = n;
+    while left > 0 {
+        let k = left.min(255);
+        v.push(k as u8);
+        v.extend(std::iter::repeat(0x42u8).take(k));
+        left -= k;
+    }
+    v.push(0);
+    v
+}
+
+fn tiff_with(filler: usize, p: &[u8]) -> (Vec<u8>, usize) {
+    let mut v = vec![b'I', b'I', 0x2A, 0, 0, 0, 0, 0];
+    v.extend(std::iter::repeat(0x11u8).take(filler));
+    let p_off = v.len();
+    v.extend_from_slice(p);
+    let strip_off = v.len();
+    v.extend_from_slice(&[0xAA, 0xBB, 0xCC, 0xDD]);
+    if v.len() % 2 == 1 {
+        v.push(0);
+    }
+    let ifd_off = v.len() as u32;
+    v[4..8].copy_from_slice(&ifd_off.to_le_bytes());
+    let ents: Vec<(u16, u16, u32, u32)> = vec![
+        (256, 3, 1, 1), (257, 3, 1, 1), (258, 3, 1, 8), (259, 3, 1, 1), (262, 3, 1, 1), (273, 4, 1, strip_off as u32),
+        (277, 3, 1, 1), (278, 3, 1, 1), (279, 4, 1, 4), (0xCD41, 7, p.len() as u32, p_off as u32),
+    ];
+    v.extend_from_slice(&(ents.len() as u16).to_le_bytes());
+    for (t, ty, c, val) in ents {
+        v.extend_from_slice(&t.to_le_bytes());
+        v.extend_from_slice(&ty.to_le_bytes());
+        v.extend_from_slice(&c.to_le_bytes());
+        if ty == 3 {
+            v.extend_from_slice(&(val as u16).to_le_bytes());
+            v.extend_from_slice(&[0, 0]);
+        } else {
+            v.extend_from_slice(&val.to_le_bytes());
+        }
+    }
+    v.extend_from_slice(&[0, 0, 0, 0]);
+    (v, p_off)
+}
+
+/// The asset with the composed bytes `p` embedded behind `filler` bytes of format-appropriate filler.
+/// Returns (asset, offset of p). None for the sidecar pseudo format (nothing is embedded).
+pub fn embed(fmt: &str, filler: usize, p: &[u8]) -> Option<(Vec<u8>, usize)> {
+    match fmt {
+        "jpeg" => {
+            let b = assets::jpeg();
+            let mut v = b[..2].to_vec();
+            v.extend(jpeg_com(filler));
+            let off = v.len();
+            v.extend_from_slice(p);
+            v.extend_from_slice(&b[2..]);
+            Some((v, off))
+        }
+        "png" => {
+            let b = assets::png();
+            let mut v = b[..33].to_vec();
+            if filler > 0 {
+                v.extend(assets::png_chunk(b"vrFy", &vec![0x43u8; filler]));
+            }
+            let off = v.len();
+            v.extend_from_slice(p);
+            v.extend_from_slice(&b[33..]);
+            Some((v, off))
+        }
+        "gif" => {
+            let b = assets::gif();
+            let mut v = b[..19].to_vec();
+            v.extend(gif_comment(filler));
+            let off = v.len();
+            v.extend_from_slice(p);
+            v.extend_from_slice(&b[19..]);
+            Some((v, off))
+        }
+        "jxl" => {
+            let b = assets::jxl();
+            let mut v = b[..32].to_vec();
+            if filler > 0 {
+                v.extend(assets::bx(b"free", &vec![0u8; filler]));
+            }
+            let off = v.len();
+            v.extend_from_slice(p);
+            v.extend_from_slice(&b[32..]);
+            Some((v, off))
+        }
+        "tiff" => Some(tiff_with(filler, p)),
+        _ => None,
+    }
+}
+
+/// Filler sizes that put the placeholder at an offset of magnitude class `co` (None: impossible for the format).
+pub fn filler_for(fmt: &str, co: usize) -> Option<usize> {
+    // smallest possible offset per format
+    let min_off: u64 = match fmt { "jpeg" => 2, "png" => 33, "gif" => 19, "jxl" => 32, "tiff" => 8, _ => return None };
+    if co == 4 {
+        return None;
+    }
+    if class_of(min_off) == co {
+        return Some(0);
+    }
+    if class_of(min_off) > co {
+        return None;
+    }
+    Some(match co { 1 => 40, 2 => 600, _ => 80_000 })
+}
+
+// ---- sparse virtual stream ----------------------------------------------------------------------------------
+
+pub struct Sparse {
+    pub head: Vec<u8>,
+    pub len: u64,
+    pub pos: u64,
+    pub served: u64,
+}
+impl Read for Sparse {
+    fn read(&mut self, buf: &mut [u8]) -> std::io::Result<usize> {
+        if self.pos >= self.len {
+            return Ok(0);
+        }
+        let n = (buf.len() as u64).min(self.len - self.pos) as usize;
+        let h = self.head.len() as u64;
+        for (i, b) in buf[..n].iter_mut().enumerate() {
+            let p = self.pos + i as u64;
+            *b = if p < h { self.head[p as usize] } else { 0 };
+        }
+        self.pos += n as u64;
+        self.served += n as u64;
+        Ok(n)
+    }
+}
+impl Seek for Sparse {
+    fn seek(&mut self, s: SeekFrom) -> std::io::Result<u64> {
+        let np: i128 = match s {
+            SeekFrom::Start(x) => x as i128,
+            SeekFrom::End(d) => self.len as i128 + d as i128,
+            SeekFrom::Current(d) => self.pos as i128 + d as i128,
+        };
+        if np < 0 {
+            return Err(std::io::Error::new(std::io::ErrorKind::InvalidInput, "seek before start"));
+        }
+        self.pos = np as u64;
+        Ok(self.pos)
+    }
+}
+
+// ---- exclusion lists ------------------------------------------------------------------------------------------
+
+/// The exclusion list for (n, offset class, length class). `bridged` = a leading range [head_end, 2^32) was used so that
+/// the 4 GiB below the first >=2^32 offset need not be hashed (that range is one of the n).
+pub fn exclusion_list(n: usize, co: usize, cl: usize, head_end: u64, pure: bool) -> Option<(Vec<(u64, u64)>, bool)> {
+    let len_lo = CLASS_LO[cl].max(1);
+    let width = if co < 4 { CLASS_LO[co + 1] - CLASS_LO[co] } else { u64::MAX / 4 };
+    let mut v = vec![];
+    let mut bridged = false;
+    let mut m = n;
+    if co == 4 && !pure {
+        if n < 2 {
+            return None;
+        }
+        v.push((head_end, (1u64 << 32) - head_end));
+        bridged = true;
+        m = n - 1;
+    }
+    // stride: disjoint when the class is wide enough, otherwise overlapping (hashing treats exclusions as a union)
+    let want = len_lo + 16;
+    let stride = if (m as u64) * want < width { want } else { (width / 12).max(2) };
+    for i in 0..m as u64 {
+        v.push((CLASS_LO[co] + i * stride, len_lo + (i % 3)));
+    }
+    Some((v, bridged))
+}
+
+// ---- cases ----------------------------------------------------------------------------------------------------
+
+#[derive(Clone, Debug)]
+pub struct Case {
+    pub real: bool,
+    pub fmt: String,
+    pub n: usize,
+    pub co: usize,
+    pub cl: usize,
+    pub reserve_extra: usize,
+    pub rich: bool,
+    pub alg: String,
+    pub pure: bool,
+}
+impl Case {
+    pub fn to_json(&self) -> Value {
+        json!({"real": self.real, "fmt": self.fmt, "n": self.n, "co": self.co, "cl": self.cl, "reserve_extra": self.reserve_extra, "rich": self.rich, "alg": self.alg, "pure": self.pure})
+    }
+    pub fn from_json(v: &Value) -> Case {
+        Case {
+            real: v["real"].as_bool().unwrap_or(false),
+            fmt: v["fmt"].as_str().unwrap_or("jpeg").into(),
+            n: v["n"].as_u64().unwrap_or(1) as usize,
+            co: v["co"].as_u64().unwrap_or(0) as usize,
+            cl: v["cl"].as_u64().unwrap_or(0) as usize,
+            reserve_extra: v["reserve_extra"].as_u64().unwrap_or(0) as usize,
+            rich: v["rich"].as_bool().unwrap_or(false),
+            alg: v["alg"].as_str().unwrap_or("ed25519").into(),
+            pure: v["pure"].as_bool().unwrap_or(false),
+        }
+    }
+    pub fn id(&self) -> String {
+        format!("{} {} n={} co={} cl={} r+{} {} {}{}", if self.real { "real" } else { "sized" }, self.fmt, self.n, self.co, self.cl, self.reserve_extra,
+            if self.rich { "rich" } else { "simple" }, self.alg, if self.pure { " pure" } else { "" })
+    }
+    pub fn mime(&self) -> &'static str {
+        FORMATS.iter().find(|f| f.0 == self.fmt).map(|f| f.1).unwrap_or("image/jpeg")
+    }
+}
+
+pub fn mk_builder(c: &Case) -> c2pa::Result<Builder> {
+    let signer = OwnedReserve { inner: sdk::fixture_signer(&c.alg), extra: c.reserve_extra };
+    let ctx: Context = sdk::ctx().with_signer(signer);
+    let def = if c.rich { Def::rich() } else { Def::empty() };
+    let mut b = Builder::from_context(ctx).with_definition(def.definition(2, None))?;
+    b.set_intent(BuilderIntent::Create(DigitalSourceType::DigitalCapture));
+    def.apply(&mut b, 2)?;
+    Ok(b)
+}
+
+pub struct Res {
+    pub placeholder: usize,
+    pub signed: Option<usize>,
+    pub err: Option<String>,
+    /// real cases: validation state of the patched asset (or read error)
+    pub state: Option<String>,
+    pub hashed_bytes: u64,
+    pub ranges: Vec<(u64, u64)>,
+}
+
+pub fn run_case(c: &Case) -> Result<Res, String> {
+    par::guard(|| {
+        let mime = c.mime();
+        let mut res = Res { placeholder: 0, signed: None, err: None, state: None, hashed_bytes: 0, ranges: vec![] };
+        let mut b = match mk_builder(c) {
+            Ok(b) => b,
+            Err(e) => { res.err = Some(format!("builder: {e:?}")); return res; }
+        };
+        let ph = match b.placeholder(mime) {
+            Ok(p) => p,
+            Err(e) => { res.err = Some(format!("placeholder: {e:?}")); return res; }
+        };
+        res.placeholder = ph.len();
+        let r: c2pa::Result<Vec<u8>> = (|| {
+            if c.real {
+                let filler = filler_for(&c.fmt, c.co).unwrap_or(0);
+                let (asset, off) = embed(&c.fmt, filler, &ph).unwrap_or_else(|| kit::ev::machinery("C15: real case for a format without embedding"));
+                if class_of(off as u64) != c.co {
+                    kit::ev::machinery(format!("C15: filler for {} puts the placeholder at {off}, not in class {}", c.fmt, c.co));
+                }
+                res.ranges = vec![(off as u64, ph.len() as u64)];
+                b.set_data_hash_exclusions(vec![HashRange::new(off as u64, ph.len() as u64)])?;
+                b.update_hash_from_stream(mime, &mut Cursor::new(&asset))?;
+                res.hashed_bytes = (asset.len() - ph.len()) as u64;
+                let signed = b.sign_embeddable(mime)?;
+                if signed.len() == ph.len() {
+                    let mut patched = asset.clone();
+                    patched[off..off + signed.len()].copy_from_slice(&signed);
+                    res.state = Some(match par::guard(|| Reader::from_context(sdk::ctx()).with_stream(mime, Cursor::new(&patched))) {
+                        Ok(Ok(rd)) => sdk::state_name(rd.validation_state()).to_string(),
+                        Ok(Err(e)) => format!("read-error {}", sdk::err_kind(&e)),
+                        Err(p) => format!("read-panic {p}"),
+                    });
+                }
+                Ok(signed)
+            } else {
+                let head = embed(&c.fmt, 0, &ph).map(|x| x.0).unwrap_or_else(|| vec![0x5Au8; 64]);
+                let (ranges, _bridged) = exclusion_list(c.n, c.co, c.cl, head.len() as u64 + 8, c.pure)
+                    .unwrap_or_else(|| kit::ev::machinery("C15: infeasible exclusion list was enumerated"));
+                let end = ranges.iter().map(|r| r.0 + r.1).max().unwrap_or(0).max(head.len() as u64) + 64;
+                res.ranges = ranges.clone();
+                b.set_data_hash_exclusions(ranges.iter().map(|r| HashRange::new(r.0, r.1)).collect())?;
+                let mut s = Sparse { head, len: end, pos: 0, served: 0 };
+                b.update_hash_from_stream(mime, &mut s)?;
+                res.hashed_bytes = s.served;
+                b.sign_embeddable(mime)
+            }
+        })();
+        match r {
+            Ok(s) => res.signed = Some(s.len()),
+            Err(e) => res.err = Some(format!("{e:?}")),
+        }
+        res
+    })
+}
+
+static STATS: std::sync::OnceLock<kit::defs::KeyStats> = std::sync::OnceLock::new();
+
+fn violation(run: &Run, key: String, what: String, case: Value) {
+    STATS.get_or_init(Default::default).add(&key, &what);
+    run.violation(key, what, case);
+}
+
+fn judge(run: &Run, c: &Case, r: Result<Res, String>) {
+    run.eval();
+    match r {
+        Err(p) => {
+            run.outcome("panic");
+            violation(run, format!("panic {} fmt={}", if c.real { "real" } else { "sized" }, c.fmt), format!("{}: {p}", c.id()), c.to_json());
+        }
+        Ok(res) => {
+            if let Some(e) = &res.err {
+                run.outcome(format!("err:{}", e.split(|ch: char| !(ch.is_alphanumeric() || ch == ':' || ch == ' ')).next().unwrap_or("")));
+                // an error is an allowed outcome of the size contract; a real single-exclusion flow that errors is still
+                // reported because then no patched asset exists that could read back Valid
+                if c.real {
+                    violation(run, format!("real-flow-error fmt={} co={}", c.fmt, c.co), format!("{}: {e}", c.id()), c.to_json());
+                }
+                return;
+            }
+            let signed = res.signed.unwrap_or(0);
+            run.nontrivial(c.id());
+            let d = signed as i64 - res.placeholder as i64;
+            if d == 0 {
+                run.outcome("same-size");
+            } else if d > 0 {
+                run.outcome("longer");
+                violation(run, format!("longer-than-placeholder n={:02} co={} cl={}", c.n, c.co, c.cl),
+                    format!("{}: placeholder {} bytes, sign_embeddable returned {} bytes (+{d}), no error; exclusions {:?}", c.id(), res.placeholder, signed, res.ranges), c.to_json());
+            } else {
+                run.outcome("shorter");
+                violation(run, format!("shorter-than-placeholder n={:02} co={} cl={}", c.n, c.co, c.cl),
+                    format!("{}: placeholder {} bytes, sign_embeddable returned {} bytes ({d})", c.id(), res.placeholder, signed), c.to_json());
+            }
+            if c.real && d == 0 {
+                let st = res.state.clone().unwrap_or_default();
+                run.outcome(format!("patched:{}", st.split(' ').next().unwrap_or("")));
+                if st != "Valid" {
+                    violation(run, format!("patched-not-valid fmt={} co={} state={}", c.fmt, c.co, st.split(' ').take(2).collect::<Vec<_>>().join(" ")),
+                        format!("{}: the asset with the signed bytes patched over the placeholder reads back {st}", c.id()), c.to_json());
+                }
+            }
+        }
+    }
+}
+
+pub fn cases(thorough: bool) -> (Vec<Case>, Vec<Case>, Vec<Case>) {
+    let algs: Vec<&str> = if thorough { sdk::ALGS.iter().map(|a| a.0).collect() } else { vec!["ed25519"] };
+    let mut real = vec![];
+    let mut sized = vec![];
+    let mut pure = vec![];
+    for alg in &algs {
+        for (fmt, _) in FORMATS {
+            for reserve_extra in [0usize, 5000] {
+                for rich in [false, true] {
+                    for co in 0..4 {
+                        if filler_for(fmt, co).is_some() {
+                            real.push(Case { real: true, fmt: fmt.into(), n: 1, co, cl: 9, reserve_extra, rich, alg: alg.to_string(), pure: false });
+                        }
+                    }
+                    for n in 1..=12usize {
+                        for co in 0..5 {
+                            for cl in 0..5 {
+                                if exclusion_list(n, co, cl, 100, false).is_some() {
+                                    sized.push(Case { real: false, fmt: fmt.into(), n, co, cl, reserve_extra, rich, alg: alg.to_string(), pure: false });
+                                }
+                            }
+                        }
+                    }
+                }
+            }
+        }
+    }
+    if thorough {
+        for n in 1..=12usize {
+            for cl in 0..5 {
+                for reserve_extra in [0usize, 5000] {
+                    pure.push(Case { real: false, fmt: "jpeg".into(), n, co: 4, cl, reserve_extra, rich: false, alg: "ed25519".into(), pure: true });
+                }
+            }
+        }
+    }
+    (real, sized, pure)
+}
+
+pub fn run(run: &Run, replay: Option<&Value>) {
+    run.rule("cases = (format with composed-manifest support and a DataHash binding: jpeg, png, gif, tiff, jxl, sidecar) x number of exclusions n in 1..12 x \
+              offset magnitude class {<24,<256,<2^16,<2^32,>=2^32} x length magnitude class (same 5) x signer reserve {default,+5000} x definition {simple, rich}; \
+              every case runs placeholder -> set_data_hash_exclusions -> update_hash_from_stream -> sign_embeddable on the real Builder. \
+              `real` cases (n=1) embed the placeholder in a kit asset at an offset of the class, patch the result in place and read it back; \
+              `sized` cases hash a sparse virtual stream long enough for the list (for offsets >= 2^32 the first of the n ranges bridges [asset end, 2^32) so that 4 GiB need not be hashed; \
+              the un-bridged lists are run in the thorough tier). Ranges overlap when a class is too narrow for n disjoint ranges. \
+              non-trivial = distinct cases in which sign_embeddable returned bytes (so the size contract was actually judged).");
+    run.assume("signer: repository Ed25519 test credentials in the Context (thorough: all 7 algorithms); intent Create; no dynamic assertions");
+    run.assume("offset class <24 is impossible for png/jxl (fixed headers are longer) and >=2^32 for any real asset; those real cases are not in the space");
+    if let Some(c) = replay {
+        let case = Case::from_json(c);
+        let r = run_case(&case);
+        if let Ok(res) = &r {
+            println!("replay {}: placeholder {} signed {:?} err {:?} state {:?} ranges {:?}", case.id(), res.placeholder, res.signed, res.err, res.state, res.ranges);
+        }
+        judge(run, &case, r);
+        return;
+    }
+    // precondition: formats are exactly those with composed-manifest support and a DataHash binding
+    for (fmt, mime) in FORMATS {
+        if c2pa::verif_hooks::compose_manifest(mime, &assets::store(100)).is_none() {
+            kit::ev::machinery(format!("C15: {fmt} has no composed-manifest support"));
+        }
+    }
+    // determinism of sizes
+    {
+        let c = Case { real: true, fmt: "jpeg".into(), n: 1, co: 0, cl: 9, reserve_extra: 0, rich: false, alg: "ed25519".into(), pure: false };
+        let a = run_case(&c).ok().map(|r| (r.placeholder, r.signed, r.state));
+        let b = run_case(&c).ok().map(|r| (r.placeholder, r.signed, r.state));
+        run.evals(2);
+        if a != b || a.is_none() {
+            kit::ev::machinery(format!("C15: baseline flow not deterministic or failing: {a:?} vs {b:?}"));
+        }
+        run.sample(json!({"case": c.to_json(), "observed": format!("{a:?}")}));
+    }
+    let (real, sized, pure) = cases(run.tier.is_thorough());
+    run.space("real single-exclusion cases: format x feasible offset class x reserve x definition (x alg)", real.len() as u64, true);
+    run.space("sized cases: format(6) x n(1..12) x offset class(5) x length class(5) x reserve(2) x definition(2) (x alg), minus n=1 with offsets >= 2^32", sized.len() as u64, true);
+    if !pure.is_empty() {
+        run.space("un-bridged lists with every offset >= 2^32 (4 GiB of the virtual stream is hashed): jpeg x n(12) x length class(5) x reserve(2)", pure.len() as u64, true);
+    }
+    par::for_each(&real, |c| judge(run, c, run_case(c)));
+    par::for_each(&sized, |c| judge(run, c, run_case(c)));
+    par::for_each(&pure, |c| judge(run, c, run_case(c)));
+    STATS.get_or_init(Default::default).dump("C15");
+    for c in [&sized[0], &sized[sized.len() / 2], &sized[sized.len() - 1]] {
+        if let Ok(r) = run_case(c) {
+            run.sample(json!({"case": c.to_json(), "exclusions": r.ranges, "placeholder_len": r.placeholder, "signed_len": r.signed, "error": r.err, "bytes_hashed": r.hashed_bytes}));
+        }
+        run.eval();
+    }
 }
